@@ -928,6 +928,18 @@ def gen_abs_doc(rng):
             st.append('width:%dpx' % rng.choice([120, 200, 300]))
         if rng.random() < 0.5:
             st.append('height:%dpx' % rng.choice([50, 120, 200]))
+        # containing blocks whose used height is not their content height: min-height above / max-height below the
+        # content (or the fixed height), floats that a formatting-context root grows to contain
+        if rng.random() < 0.3:
+            st.append('min-height:%dpx' % rng.choice([60, 150, 250]))
+        if rng.random() < 0.15:
+            st.append('max-height:%dpx' % rng.choice([15, 40]))
+        tall_float = ''
+        if rng.random() < 0.2:
+            tall_float = '<div style="float:%s;width:20px;height:%dpx"></div>' % (
+                rng.choice(['left', 'right']), rng.choice([40, 120]))
+            if rng.random() < 0.6:
+                st.append('overflow:hidden')
         if rng.random() < 0.4:
             st.append('padding:%dpx %dpx %dpx %dpx' % tuple(rng.choice([0, 3, 10]) for _ in range(4)))
         if rng.random() < 0.4:
@@ -940,7 +952,7 @@ def gen_abs_doc(rng):
         mycb = eid if pos != 'static' else cb
         # always some in-flow content first: an empty positioned block with vertical margins gets a negative
         # height while its absolute children are laid out (reported deviation, not generated)
-        kids = ['<p style="margin:0">ab</p>']
+        kids = ['<p style="margin:0">ab</p>' + tall_float]
         for _ in range(rng.choice([1, 1, 2, 3])):
             r = rng.random()
             if r < 0.5:
@@ -1082,15 +1094,17 @@ def check_abs_monitor(S, rng, thorough):
     S.add_monitor('render-absolute', 'render_abs', docs, judge_abs,
                 'absolutely positioned blocks and images, left/right/width/top/bottom/height auto|px|%, margins auto|px '
                 '(negative too), min/max-width, min/max-height, padding/border, in static/relative/absolute ancestors (depth<=4) with '
-                'padding/border/offsets, ltr/rtl parents; judged against the padding box of the nearest positioned '
-                'ancestor (else the page area) by the Python port of axis_spec_b', 'abs')
+                'padding/border/offsets, ltr/rtl parents, whose used height differs from their content height (fixed '
+                'height, min-height above / max-height below the content, a float that a formatting-context root grows '
+                'to contain); judged against the padding box of the USED size of the nearest positioned ancestor (else '
+                'the page area) by the Python port of axis_spec_b', 'abs')
 
 
 # ------------------------------------------------------------------------------------- monitor: fixed boxes
 
 def gen_fixed_doc(rng):
     n = rng.choice([1, 2])
-    fixed = []
+    fixed, nested = [], {}
     where = rng.choice(['first', 'middle', 'nested', 'later'])
     for i in range(n):
         st = ['position:fixed']
@@ -1105,13 +1119,23 @@ def gen_fixed_doc(rng):
         st.append('height:%s' % height)
         for prop in ('margin-left', 'margin-top', 'margin-right', 'margin-bottom'):
             st.append('%s:%s' % (prop, gen_len(rng, p_auto=0.5, pct=False, choices=(0, 3, 8))))
-        fixed.append('<div id="x%d" style="%s">%s</div>' % (i, ';'.join(st),
-                                                            rng.choice(['', 'abc', 'ab cd']) if height == 'auto' else ''))
+        content = rng.choice(['', 'abc', 'ab cd']) if height == 'auto' else ''
+        if height == 'auto' and rng.random() < 0.35:
+            # a grandchild with a top margin that collapses through the child: the same on every page (3+ pages)
+            m = rng.choice([4, 7, 12])
+            nested['x%d' % i] = m
+            content = '<div id="x%dn"><div id="x%dm" style="margin-top:%dpx">f</div></div>' % (i, i, m)
+        fixed.append('<div id="x%d" style="%s">%s</div>' % (i, ';'.join(st), content))
     blocks = []
     for k in range(rng.randint(2, 7)):
         blocks.append('<div id="k%d" style="height:%dpx%s">abc</div>' % (
             k, rng.choice([40, 90, 150, 260]), ';break-before:page' if rng.random() < 0.2 else ''))
-    blocks.append('<div id="klast" style="height:40px;break-before:page">abc</div>')     # always at least two pages
+    if nested and rng.random() < 0.7:
+        # at least three more pages that start after an UNFORCED break (after a forced break no margin is truncated)
+        for k in range(3):
+            blocks.append('<div id="kn%d" style="height:260px">abc</div>' % k)
+    else:
+        blocks.append('<div id="klast" style="height:40px;break-before:page">abc</div>')     # always at least two pages
     if where == 'first':
         body = ''.join(fixed) + ''.join(blocks)
     elif where == 'later':
@@ -1124,32 +1148,55 @@ def gen_fixed_doc(rng):
         body = '<div id="rel" style="position:relative;left:13px;padding:7px">%s</div>%s' % (''.join(fixed), ''.join(blocks))
     html = ('<style>@page{size:300px 300px;margin:%dpx}body{margin:0;font-family:weasyprint;font-size:10px;'
             'line-height:10px}</style>%s' % (rng.choice([0, 15]), body))
-    return dict(html=html, nfixed=n)
+    return dict(html=html, nfixed=n, nested=nested)
+
+
+F213 = 'abs-layout-page-is-empty-truncates-nested-margins-after-page-1'
 
 
 def judge_fixed(doc, pages):
+    """every fixed box is present with the same rectangle on every page.  Attribution of the open finding F213 (by
+    mechanism): the box holds a grandchild with a top margin (doc['nested']), on one of the two pages compared the
+    used margin-top of that grandchild is 0 instead of the specified value (truncated as if it adjoined a page break:
+    block_level_layout `context.current_page > 1 and page_is_empty`, page_is_empty being forced by absolute_block and
+    current_page being stale in layout_fixed_boxes), and the two rectangles differ by exactly that margin in height
+    (same x and width; same top, bottom or centre)."""
     bad = []
     first = {}
     if len(pages) < 2:
-        bad.append(('several-pages', None, len(pages)))
+        bad.append(('several-pages', None, len(pages), None))
     for pi, seen in enumerate(pages):
         for i in range(doc['nfixed']):
             eid = 'x%d' % i
             if eid not in seen:
-                bad.append(('fixed-box-on-every-page', eid, ('missing on page', pi)))
+                bad.append(('fixed-box-on-every-page', eid, ('missing on page', pi), None))
                 continue
             if eid not in first:
-                first[eid] = seen[eid]
-            elif any(abs(a - b) > 1e-6 for a, b in zip(first[eid][:4], seen[eid][:4])):
-                bad.append(('fixed-identical-on-every-page', eid, (first[eid], pi, seen[eid])))
+                first[eid] = (pi, seen[eid], seen.get(eid + 'm'))
+            elif any(abs(a - b) > 1e-6 for a, b in zip(first[eid][1][:4], seen[eid][:4])):
+                sig = None
+                m = (doc.get('nested') or {}).get(eid)
+                r0, r1 = first[eid][1], seen[eid]
+                g0, g1 = first[eid][2], seen.get(eid + 'm')
+                if m and g0 is not None and g1 is not None and len(g0) > 5 and g0[5] is not None and g1[5] is not None:
+                    used = sorted([g0[5], g1[5]])
+                    dh = r1[3] - r0[3] if g1[5] > g0[5] else r0[3] - r1[3]      # untruncated minus truncated
+                    same_edge = (abs(r0[1] - r1[1]) < 1e-6 or abs(r0[1] + r0[3] - r1[1] - r1[3]) < 1e-6 or
+                                 abs(2 * r0[1] + r0[3] - 2 * r1[1] - r1[3]) < 1e-6)
+                    if abs(used[0]) < 1e-6 and abs(used[1] - m) < 1e-6 and abs(dh - m) < 1e-6 and same_edge and \
+                            abs(r0[0] - r1[0]) < 1e-6 and abs(r0[2] - r1[2]) < 1e-6:
+                        sig = F213
+                bad.append(('fixed-identical-on-every-page', eid, (first[eid][1][:4], pi, seen[eid][:4]), sig))
     return bad, len(pages) * doc['nfixed']
 
 
 def check_fixed_monitor(S, rng, thorough):
     docs = [gen_fixed_doc(rng) for _ in range(600 if thorough else 150)]
-    S.add_monitor('render-fixed', 'render_positions', docs, judge_fixed,
+    S.add_monitor('render-fixed', 'render_fixed', docs, judge_fixed,
                   '1..2 position:fixed boxes (offsets/size/margins auto|px|%) met first, after a first block, inside a '
-                  'relative box or on the last page, 2..8 pages; present with the same rectangle on every page', 'fixed')
+                  'relative box or on the last page, 2..10 pages, 35% of the auto-height ones holding a grandchild with '
+                  'a top margin (70% of these documents end with three pages begun by unforced breaks); present with the same '
+                  'rectangle on every page', 'fixed')
 
 
 # ------------------------------------------------------------------------- monitor: relative (metamorphic)
@@ -1290,14 +1337,14 @@ MONITORS = {
     'render-floats-midline': ('render_floats', lambda d, o: (judge_floats(o), 0), 'floats', None),
     'inline-float-queue': ('render_floats', lambda d, o: (judge_queue_replay(d, o), 0), 'queue', None),
     'render-absolute': ('render_abs', lambda d, o: judge_abs(d, o), 'abs', None),
-    'render-fixed': ('render_positions', lambda d, o: judge_fixed(d, o), 'fixed', None),
+    'render-fixed': ('render_fixed', lambda d, o: judge_fixed(d, o), 'fixed', None),
     'render-relative': ('render_relative_pair', lambda d, o: judge_rel(d, o), 'relative', None),
 }
 
 
 def check_corpus(S):
     """minimised cases replayed first: the witness of the open finding F39 (its alarm carries the finding's
-    signature) and the witnesses of the repaired findings F50, F51, F52, F210, F211 as regression cases (no attribution)."""
+    signature) and the witnesses of the repaired findings F50, F51, F52, F210, F211, F212 as regression cases (no attribution) and the witness of the open finding F213."""
     d = os.path.join(common.VERIF, 'corpus', 'C11')
     files = sorted(f for f in os.listdir(d) if f.endswith('.json')) if os.path.isdir(d) else []
     for f in files:
